@@ -235,6 +235,11 @@ def drv(c, ctx, col):
     def ix_ok(res, want):
         return res[0] == "ok" and list(res[1]) == want
 
+    if "subsets" in ctx["checks"]:
+        check_subsets(ctx, col, bad, ms, mm, data, output, keys, exp_terms, P, names)
+    if "metadata" not in ctx["checks"]:
+        return
+
     # ---- 3. lookups by object / printed form / permutations -----------------
     for i, (k, t) in enumerate(zip(keys, exp_terms)):
         want = P[i]
@@ -252,7 +257,7 @@ def drv(c, ctx, col):
         col.count("lookups:by-object", len(by_obj))
         if failed:
             bad("object-lookup-wrong", "term %r" % s, {"term": s, "want": want, "failed": failed, "expr": "t = ms.terms[%d]; print(ms.get_slice(t))" % i})
-        reparsable = t == () or all(f in ("a", "b", "A", "B", "D", "2.5") for f in t)
+        reparsable = reparses(t)
         by_str = {
             "term_indices[str]": (ix_ok, attempt(lambda: ms.term_indices[s])),
             "term_slices[str]": (sl_ok, attempt(lambda: ms.term_slices[s])),
@@ -338,6 +343,14 @@ def drv(c, ctx, col):
                     bad("variable-indices-wrong", "get_variable_indices([%r])" % v, {"got": r, "want": sorted(exp_vars[v]),
                                                                                    "expr": "print(ms.get_variable_indices([%r]))" % v})
 
+
+
+def reparses(term):
+    """does the printed form of the term parse back to the same single term"""
+    return all(f in ("a", "b", "A", "B", "D", "2.5") for f in term)
+
+
+def check_subsets(ctx, col, bad, ms, mm, data, output, keys, exp_terms, P, names):
     # ---- 6. subsets ------------------------------------------------------------
     nt = len(keys)
     if nt == 0 or nt > 4:
@@ -352,14 +365,13 @@ def drv(c, ctx, col):
             want_idx = [j for i in want_order for j in P[i]]
             want_names = [names[j] for j in want_idx]
             # strings for one variant (when they re-parse), Term objects for the other
-            use_str = vname.startswith("reversed") and all(
-                exp_terms[i] == () or all(f in ("a", "b", "A", "B", "D", "2.5") for f in exp_terms[i]) for i in req)
+            use_str = vname.startswith("reversed") and all(reparses(exp_terms[i]) for i in req)
             arg = [str(keys[i]) for i in req] if use_str else [keys[i] for i in req]
             what = "subset(%r%s) [%s]" % ([str(keys[i]) for i in req], "".join(", %s=%r" % kv for kv in kw.items()), vname)
             expr = "sub = ms.subset(%r%s); print(sub.column_names, sub.get_model_matrix(data))" % (
                 [str(keys[i]) for i in req], "".join(", %s=%r" % kv for kv in kw.items()))
             r = attempt(lambda: ms.get_term_indices(arg, **kw))
-            if not ix_ok(r, want_idx):
+            if not (r[0] == "ok" and list(r[1]) == want_idx):
                 bad("get-term-indices-wrong", what, {"got": r, "want": want_idx, "expr": expr})
             try:
                 sub = ms.subset(arg, **kw)
@@ -381,31 +393,45 @@ def drv(c, ctx, col):
                                                                "want_terms": [str(keys[i]) for i in want_order], "expr": expr})
 
 
+USUB = [("A",), ("a",), ("A", "a"), ("B", "A"), ("b", "A", "a"), ("{a+b}",), ("2.5", "a"), ("poly(a,2)",),
+        ("bs(a,df=4)",), ("D",), ("D", "A"), ("A", "B")]
+USUB3 = [("A",), ("a",), ("A", "a"), ("B", "A"), ("b", "A", "a"), ("2.5", "a"), ("poly(a,2)",), ("D",)]
+FORMS = ["string", "term list with _ordering='none' (intercept none/first/last)"]
+
+
 def subchecks(tier, seed):
     fr = frames()
-    for t in universe(3):  # the hand-written table must describe every universe term
+    U2, U3 = universe(2), universe(3)
+    for t in U3 + USUB:  # the hand-written table must describe every universe term
         for f in t:
             assert f in FACTORS
+    W = lambda U: [written(t) for t in U]  # noqa: E731
+    ALLOUT = ["pandas", "numpy", "sparse"]
+
+    def sub(name, checks, U, nmin, nmax, outputs, frame_ids, shard_depth, first=None, note=None):
+        b = {"checks": checks, "terms_per_formula": "%d..%d (+ intercept)" % (nmin, nmax), "universe": W(U), "outputs": outputs,
+             "ensure_full_rank": [True, False], "frames": [i + 1 for i in frame_ids], "forms": FORMS}
+        if first is not None:
+            b["first_term"] = written(first)
+        if note:
+            b["note"] = note
+        return Sub(name, drv, {"universe": U, "nmin": nmin, "nmax": nmax, "frames": fr, "outputs": outputs, "frame_ids": frame_ids,
+                               "checks": checks, "first": first}, shard_depth=shard_depth, bounds=b)
+
     if tier == "quick":
-        U2 = universe(2)
-        U3 = universe(3)
-        slice_first = U3[seed % len(U3)]
+        first = U3[seed % len(U3)]
         return [
-            Sub("lists-le2", drv, {"universe": U2, "nmin": 0, "nmax": 2, "frames": fr}, shard_depth=3,
-                bounds={"terms_per_formula": "0..2 (+ intercept)", "universe": [written(t) for t in U2],
-                        "outputs": ["pandas", "numpy", "sparse"], "ensure_full_rank": [True, False], "frames": 2,
-                        "forms": ["string", "term list with _ordering='none' (intercept none/first/last)"]}),
-            Sub("lists-3-seed-slice", drv, {"universe": U3, "first": slice_first, "nmin": 3, "nmax": 3, "frames": fr,
-                                            "outputs": ["pandas"], "frame_ids": [0]}, shard_depth=2,
-                bounds={"terms_per_formula": 3, "first_term": written(slice_first), "other_terms_universe": [written(t) for t in U3],
-                        "note": "VERIF_SEED-selected exhaustive slice of the thorough scope (pandas output, frame 1)"}),
+            sub("meta-le2", ["metadata"], U2, 0, 2, ALLOUT, [0], 3),
+            sub("meta-le1-frame2", ["metadata"], U3, 0, 1, ALLOUT, [1], 2),
+            sub("subsets-le2", ["subsets"], USUB, 0, 2, ["pandas"], [0], 3),
+            sub("subsets-le1-outputs", ["subsets"], U3, 1, 1, ["numpy", "sparse"], [0, 1], 2),
+            sub("meta-3-seed-slice", ["metadata"], U2, 3, 3, ["pandas"], [0], 2, first=first,
+                note="VERIF_SEED-selected exhaustive slice (first term fixed) of the 3-term scope"),
         ]
-    U3 = universe(3)
     return [
-        Sub("lists-le2", drv, {"universe": U3, "nmin": 0, "nmax": 2, "frames": fr}, shard_depth=3,
-            bounds={"terms_per_formula": "0..2 (+ intercept)", "universe": [written(t) for t in U3],
-                    "outputs": ["pandas", "numpy", "sparse"], "ensure_full_rank": [True, False], "frames": 2,
-                    "forms": ["string", "term list with _ordering='none' (intercept none/first/last)"]}),
-        Sub("lists-3", drv, {"universe": U3, "nmin": 3, "nmax": 3, "frames": fr, "outputs": ["pandas"], "frame_ids": [0]}, shard_depth=2,
-            bounds={"terms_per_formula": 3, "universe": [written(t) for t in U3], "outputs": ["pandas"], "frames": 1}),
+        sub("meta-le2", ["metadata"], U3, 0, 2, ALLOUT, [0, 1], 3),
+        sub("meta-3", ["metadata"], U2, 3, 3, ["pandas"], [0], 3),
+        sub("subsets-le2", ["subsets"], U2, 0, 2, ALLOUT, [0], 3),
+        sub("subsets-le2-wide", ["subsets"], U3, 0, 2, ["pandas"], [1], 3),
+        sub("subsets-3", ["subsets"], USUB3, 3, 3, ["pandas"], [0], 3),
     ]
